@@ -34,10 +34,23 @@ FLIP = {"Lt": "Gt", "Le": "Ge", "Gt": "Lt", "Ge": "Le"}
 
 
 def operand_index(b, e, vecp):
-    e = strip_refs(e)
-    if e[0] == "call" and e[1] and e[1]["path"] == INDEX_PATH and strip_refs(e[2][0]) == ("arg", vecp):
+    """n when e is the n-th operand: v[n], or the payload of v.get(n) / v.first()."""
+    if isinstance(e, dict):
+        e = b.trace(e)
+    e = strip_payload(strip_refs(e))
+    if e[0] != "call" or not e[1]:
+        return None
+    base = strip_refs(e[2][0]) if e[2] else None
+    while base is not None and base[0] == "call" and base[1] and base[1]["path"].endswith("Deref>::deref"):
+        base = strip_refs(base[2][0])
+    if base != ("arg", vecp):
+        return None
+    p = e[1]["path"]
+    if p == INDEX_PATH or re.search(r"^core::slice::<impl \[T\]>::get$|^std::vec::Vec::<T, A>::get$", p):
         i = strip_refs(e[2][1])
         return const_value(i[1]) if i[0] == "const" else None
+    if p == "core::slice::<impl [T]>::first":
+        return 0
     return None
 
 
@@ -91,7 +104,7 @@ def run(ctx):
                         hv = i + 1
                 vecp = hv
                 sites = comparator_sites(facts, host, vecp)
-                extra = [callee_path(tt) for _, tt in host.calls() if not (callee_path(tt) in (INDEX_PATH, "std::vec::Vec::<T, A>::len") or (callee_path(tt) or "").startswith("std::ops::Fn"))]
+                extra = [callee_path(tt) for _, tt in host.calls() if not (callee_path(tt) in (INDEX_PATH, "std::vec::Vec::<T, A>::len", "core::slice::<impl [T]>::get", "core::slice::<impl [T]>::len", "core::slice::<impl [T]>::first", "<std::vec::Vec<T, A> as std::ops::Deref>::deref") or (callee_path(tt) or "").startswith("std::ops::Fn"))]
                 ctx.check(not extra, "K1.untouched", "%s: operands reach the comparator untouched (%s)" % (op, cfg), "the between helper also calls %s — operands are converted before the adjacent comparisons" % extra, where=host.where(), fn=host.key, nontrivial=True)
             else:
                 keys = {s[1] for s in sites}
@@ -111,11 +124,17 @@ def run(ctx):
                             t_edge = bool_edge(host, sb, e2[1] == "Eq")
                             f_edge = bool_edge(host, sb, e2[1] != "Eq")
                             two, three = ((sb, t_edge), (sb, f_edge)) if k == 2 else ((sb, f_edge), (sb, t_edge))
+            if two is None:
+                # `match items.get(2) { None => two-operand form, Some(third) => three-operand form }`
+                from .core import option_guards
+                for (sw_, t_some, t_none) in option_guards(host, lambda x: x[0] == "call" and x[1] and re.search(r"::get$", x[1]["path"]) is not None and strip_refs(x[2][1])[0] == "const" and const_value(strip_refs(x[2][1])[1]) == 2):
+                    two, three = (sw_, t_none), (sw_, t_some)
             ctx.check(two is not None, "K1.len-split", "%s distinguishes the two- and three-operand forms by the operand count (%s)" % (op, cfg), "no test of the operand count", where=host.where(), fn=host.key, nontrivial=True)
             if two is None:
                 continue
-            s2 = [s for s in sites if edge_dominates(host, two[0], two[1], s[0])]
-            s3 = [s for s in sites if edge_dominates(host, three[0], three[1], s[0])]
+            # the comparisons made in each form: all sites except those confined to the other form
+            s2 = [s for s in sites if not edge_dominates(host, three[0], three[1], s[0])]
+            s3 = [s for s in sites if not edge_dominates(host, two[0], two[1], s[0])]
             ctx.check(sorted((x[2] for x in s2), key=str) == [(0, 1)], "K1.two-operand", "%s with two operands is cmp(op0, op1) (%s)" % (op, cfg), "two-operand form compares %s" % [x[2] for x in s2], where=host.where(), fn=host.key, nontrivial=True)
             ctx.check(sorted((x[2] for x in s3), key=str) == [(0, 1), (1, 2)], "K1.three-operand", "%s with three operands compares (op0,op1) and (op1,op2) (%s)" % (op, cfg), "three-operand form compares %s" % [x[2] for x in s3], where=host.where(), fn=host.key, nontrivial=True,
                       sample={"operator": op, "pairs": [x[2] for x in s3]})
